@@ -4,6 +4,8 @@ Rows have ANY length; boards are square (`Square b`: every row as long as the bo
 -/
 import JumanjiModel.Env.Game2048.Lemmas
 import JumanjiModel.Env.Game2048.Bounds
+import JumanjiModel.Env.Game2048.BoardLemmas
+import JumanjiModel.Env.Game2048.EpisodeLemmas
 open Jm Game2048
 
 namespace Props.C09
@@ -48,6 +50,27 @@ theorem game2048_step_agrees (s : State) (a : Nat) (ha : a < 4) (hs : Square s.b
     Jx.getWC s.actionMask false (a : Int) = true ↔ legal s.board a := Game2048.step_agrees s a ha hs hm
 
 example : legal [[1, 1], [0, 2]] 3 ∧ ¬ legal [[1, 2], [0, 0]] 0 := by decide +kernel
+
+/-- whenever the rules allow a move (it changes the board) the slid board has an empty cell -/
+theorem game2048_legal_leaves_empty_cell (b : Board) (a : Nat) (hs : Square b) (hl : legal b a) :
+    ∃ i j, i < b.length ∧ j < b.length ∧ get (slideBoard b (Dir.ofAction a)) i j = 0 :=
+  Game2048.exists_empty_of_legal b a hs hl
+
+/-- … so `_add_random_cell` always has a cell to choose: a valid spawn draw exists after every legal move,
+with either tile value (all board sizes, all four directions) -/
+theorem game2048_legal_spawn_exists (b : Board) (a : Nat) (hs : Square b) (hl : legal b a) (v : Nat)
+    (hv : v = 1 ∨ v = 2) : ∃ d : Draw, d.val = v ∧ validDraw (slideBoard b (Dir.ofAction a)) d :=
+  Game2048.exists_validDraw_of_legal b a hs hl v hv
+
+/-- the same in terms of the L1 `move` -/
+theorem game2048_legal_spawn_exists_L1 (b : Board) (a : Nat) (hs : Square b) (hl : legal b a) :
+    ∃ d : Draw, validDraw (move b (a : Int)).1 d := by
+  obtain ⟨d, _, hd⟩ := Game2048.exists_validDraw_of_legal b a hs hl 1 (Or.inl rfl)
+  exact ⟨d, by rw [Game2048.move_eq_spec b a hl.1 hs]; exact hd⟩
+
+/-- a slide that changes a line frees its far end (row level, any length) -/
+theorem game2048_changed_row_frees_end (r : List Nat) (h : slideSpec r ≠ r) :
+    (slideSpec r).getD (r.length - 1) 0 = 0 := Game2048.slideSpec_last_zero r h
 end Props.C04
 
 namespace Props.C05
@@ -72,6 +95,64 @@ theorem game2048_row_tileSum_conserved_L1 (r : List Nat) : tileSum (moveLeftRow 
 
 /-- a slide keeps the length of the row -/
 theorem game2048_row_length (r : List Nat) : (slideSpec r).length = r.length := Game2048.slideSpec_length r
+
+/-- BOARD level: sliding the tiles of a square board (any size) in any of the four directions conserves the sum
+of the tile values `Σ 2^e` -/
+theorem game2048_boardSum_conserved (b : Board) (dir : Dir) (hs : Square b) :
+    boardSum (slideBoard b dir) = boardSum b := Game2048.boardSum_slideBoard b dir hs
+
+/-- the same for the L1 `move` (transform, move left, transform back) -/
+theorem game2048_boardSum_conserved_L1 (b : Board) (a : Nat) (ha : a < 4) (hs : Square b) :
+    boardSum (move b (a : Int)).1 = boardSum b := by
+  rw [Game2048.move_eq_spec b a ha hs]; exact Game2048.boardSum_slideBoard b _ hs
+
+/-- a valid spawn draw (empty cell, exponent 1 or 2) adds exactly the new tile: `+2` or `+4` -/
+theorem game2048_spawn_adds (b : Board) (d : Draw) (hs : Square b) (hd : validDraw b d) :
+    boardSum (addRandomCell b d) = boardSum b + 2 ^ d.val ∧
+    (boardSum (addRandomCell b d) = boardSum b + 2 ∨ boardSum (addRandomCell b d) = boardSum b + 4) :=
+  ⟨Game2048.boardSum_addRandomCell b d hs hd, Game2048.boardSum_addRandomCell' b d hs hd⟩
+
+/-- shape preservation: `move` (EVERY action value, `lax.switch` clamps), `_add_random_cell` (EVERY draw, also
+out of range: the scatter drops) and hence `step` keep the board `n × n` -/
+theorem game2048_move_square (b : Board) (a : Int) (hs : Square b) :
+    Square (move b a).1 ∧ (move b a).1.length = b.length :=
+  ⟨Game2048.move_square b a hs, Game2048.move_length b a⟩
+
+theorem game2048_addRandomCell_square (b : Board) (d : Draw) (hs : Square b) :
+    Square (addRandomCell b d) ∧ (addRandomCell b d).length = b.length :=
+  ⟨Game2048.addRandomCell_square b d hs, Game2048.addRandomCell_length b d⟩
+
+theorem game2048_step_shaped (n : Nat) (s : State) (a : Int) (d : Draw) (hs : Shaped s.board n) :
+    Shaped (step s a d).1.board n := Game2048.step_shaped n s a d hs
+
+theorem game2048_reset_shaped (n : Nat) (d : Draw) : Shaped (reset n d).1.board n := Game2048.reset_shaped n d
+
+/-- the reset state (any size `n`, any valid first draw: a cell of the empty `n × n` board, exponent 1 or 2) is
+consistent: square board holding exactly one tile (a 2 or a 4), mask = legality, score 0 -/
+theorem game2048_reset_consistent (n : Nat) (d : Draw) (hd : validDraw (tab n (fun _ _ => 0)) d) :
+    Consistent n (reset n d).1 := Game2048.reset_consistent n d hd
+
+/-- every step with an action 0..3 (legal or not, terminal or not) from a consistent state leads to a consistent
+state; the draw has to be valid only when the move is legal (nothing is spawned otherwise) -/
+theorem game2048_step_consistent (n : Nat) (s : State) (a : Nat) (d : Draw) (ha : a < 4) (hc : Consistent n s)
+    (hd : legal s.board a → validDraw (slideBoard s.board (Dir.ofAction a)) d) :
+    Consistent n (step s a d).1 := Game2048.step_consistent n s a d ha hc hd
+
+/-- the `conserved` relation the driver evaluates on implementation transitions: tile sum `+2`/`+4` across a
+legal step (unchanged by the slide, plus the new tile), board untouched by an illegal one -/
+theorem game2048_conserved (n : Nat) (s : State) (a : Nat) (d : Draw) (ha : a < 4) (hc : Consistent n s)
+    (hd : legal s.board a → validDraw (slideBoard s.board (Dir.ofAction a)) d) :
+    conservedStep s.board a (step s a d).1.board = true := Game2048.step_conserved n s a d ha hc hd
+
+/-- … hence `Consistent` holds along every admissible play (actions 0..3, valid draws) from a consistent state -/
+theorem game2048_run_consistent (n : Nat) (s : State) (ads : List (Nat × Draw)) (hc : Consistent n s)
+    (hv : ValidPlay s ads) : Consistent n (runState s ads) := Game2048.run_consistent n s ads hc hv
+
+-- the hypotheses are satisfiable: 3×3 reset with a 4-tile in the middle, then Up with a 2 spawned at cell 8
+example : validDraw (tab 3 (fun _ _ => 0)) ⟨4, 2⟩ ∧ Consistent 3 (reset 3 ⟨4, 2⟩).1 ∧
+    legal (reset 3 ⟨4, 2⟩).1.board 0 ∧
+    validDraw (slideBoard (reset 3 ⟨4, 2⟩).1.board (Dir.ofAction 0)) ⟨8, 1⟩ ∧
+    (step (reset 3 ⟨4, 2⟩).1 0 ⟨8, 1⟩).1.board = [[0, 2, 0], [0, 0, 0], [0, 0, 1]] := by decide +kernel
 end Props.C07
 
 namespace Props.C08
@@ -89,12 +170,72 @@ theorem game2048_row_potential (r : List Nat) : tilePot (slideSpec r) = tilePot 
 /-- a slide that changes nothing earns nothing -/
 theorem game2048_fixed_no_reward (r : List Nat) (h : slideSpec r = r) : rowReward r = 0 :=
   Game2048.rowReward_of_fixed r h
+
+/-- BOARD level telescoping: the score potential `Φ = Σ (e−1)·2^e` of a square board grows by exactly the reward
+of the slide (all sizes, all four directions) -/
+theorem game2048_board_potential (b : Board) (dir : Dir) (hs : Square b) :
+    boardPot (slideBoard b dir) = boardPot b + boardReward b dir := Game2048.boardPot_slideBoard b dir hs
+
+/-- a valid spawn adds the potential of the new tile: 0 for a 2-tile, 4 for a 4-tile -/
+theorem game2048_spawn_potential (b : Board) (d : Draw) (hs : Square b) (hd : validDraw b d) :
+    boardPot (addRandomCell b d) = boardPot b + drawPot d := Game2048.boardPot_addRandomCell b d hs hd
+
+/-- whole play, NO hypotheses (any state, any action values, any draws): the score is the running sum of the
+step rewards -/
+theorem game2048_score_is_return (s : State) (ads : List (Nat × Draw)) :
+    (runState s ads).score = s.score + runReturn s ads := Game2048.run_score s ads
+
+/-- whole play from a square board with actions 0..3 (draws arbitrary): the return is the sum, over all merges
+of the play, of the value of the tile created -/
+theorem game2048_return_is_merged_values (s : State) (ads : List (Nat × Draw)) (hs : Square s.board)
+    (ha : ∀ p ∈ ads, p.1 < 4) : runReturn s ads = ((mergedValues s ads : Nat) : Rat) :=
+  Game2048.run_return_merged s ads hs ha
+
+/-- whole admissible play from any consistent state: score gain = return = Σ merged values, and the potential
+identity Φ(final) − Φ(initial) − Σ Φ(spawned tiles) = return -/
+theorem game2048_play_return (n : Nat) (s : State) (ads : List (Nat × Draw)) (hc : Consistent n s)
+    (hv : ValidPlay s ads) :
+    (runState s ads).score = s.score + runReturn s ads ∧
+    runReturn s ads = ((mergedValues s ads : Nat) : Rat) ∧
+    ((boardPot (runState s ads).board : Nat) : Rat) - ((boardPot s.board : Nat) : Rat) -
+      ((spawnPot s ads : Nat) : Rat) = runReturn s ads := Game2048.run_return n s ads hc hv
+
+/-- whole episode from `reset` (any size, any valid first tile, any admissible play — it may also run on after a
+LAST step): final score = return = Σ merged values = Φ(final board) − Σ Φ(all spawned tiles, the first included);
+and the tile sum of the final board is the sum of all spawned tiles -/
+theorem game2048_episode_return (n : Nat) (d0 : Draw) (ads : List (Nat × Draw))
+    (hd0 : validDraw (tab n (fun _ _ => 0)) d0) (hv : ValidPlay (reset n d0).1 ads) :
+    (runState (reset n d0).1 ads).score = runReturn (reset n d0).1 ads ∧
+    runReturn (reset n d0).1 ads = ((mergedValues (reset n d0).1 ads : Nat) : Rat) ∧
+    runReturn (reset n d0).1 ads = ((boardPot (runState (reset n d0).1 ads).board : Nat) : Rat) -
+      ((drawPot d0 + spawnPot (reset n d0).1 ads : Nat) : Rat) ∧
+    boardSum (runState (reset n d0).1 ads).board = 2 ^ d0.val + spawnSum (reset n d0).1 ads :=
+  Game2048.episode_return n d0 ads hd0 hv
+
+-- a concrete admissible play on the 2×2 board: Right, Left (merge 2+2), Up, Left (merge 4+4): return 12,
+-- Φ(final) = 16, potentials of the spawned tiles 4 (one 4-tile)
+example :
+    let ads : List (Nat × Draw) := [(1, ⟨0, 1⟩), (3, ⟨3, 2⟩), (0, ⟨2, 1⟩), (3, ⟨1, 1⟩)]
+    validDraw (tab 2 (fun _ _ => 0)) ⟨0, 1⟩ ∧ ValidPlay (reset 2 ⟨0, 1⟩).1 ads ∧
+    (runState (reset 2 ⟨0, 1⟩).1 ads).board = [[3, 1], [1, 0]] ∧
+    runReturn (reset 2 ⟨0, 1⟩).1 ads = 12 ∧ mergedValues (reset 2 ⟨0, 1⟩).1 ads = 12 ∧
+    boardPot (runState (reset 2 ⟨0, 1⟩).1 ads).board = 16 ∧ spawnPot (reset 2 ⟨0, 1⟩).1 ads = 4 := by
+  decide +kernel
 end Props.C08
 
 namespace Props.C12
 /-- the observation of a step is the documented view (board, legality of the four moves) of the successor -/
 theorem game2048_obs_faithful (s : State) (a : Int) (d : Draw) (hs : Square (step s a d).1.board) :
     (step s a d).2.obs = observe (step s a d).1 := Game2048.obs_faithful s a d hs
+
+/-- the same WITHOUT a hypothesis on the successor: squareness is preserved by `step` (every action value, every
+draw), so from a square board the observation is always the documented view of the successor -/
+theorem game2048_obs_faithful_step (s : State) (a : Int) (d : Draw) (hs : Square s.board) :
+    (step s a d).2.obs = observe (step s a d).1 := Game2048.obs_faithful_of_square s a d hs
+
+/-- the reset observation (any size, any draw), no hypothesis -/
+theorem game2048_reset_obs_faithful (n : Nat) (d : Draw) : (reset n d).2.obs = observe (reset n d).1 :=
+  Game2048.reset_obs_faithful n d
 end Props.C12
 
 namespace Props.C01
